@@ -127,6 +127,9 @@ DoCall ==
                \/ \E o \in {"iter_fold", "iter_rfold"} : StartCall(C(o, <<h>>, <<TRUE>>, NoneArg, <<>>, n, "arr"), <<"own">>)
                \/ /\ IdsLeft >= n
                   /\ StartCall(C("iter_clone", <<h>>, <<FALSE>>, NoneArg, <<>>, n, "arr"), <<"ref">>)
+               \* searching consumers: the scripted predicate ends the search at call sa (-1: never)
+               \/ \E o \in SearchOps : \E sa \in -1..(n - 1) :
+                    StartCall(C(o, <<h>>, <<FALSE>>, sa, <<>>, n, "arr"), <<"ref">>)
          \/ /\ k \in {"vec", "bslice"}
             /\ \E tgt \in {n, n + 1} : \E o \in (IF k = "vec" THEN {"try_from_vec", "arr_try_from_vec"}
                                                  ELSE {"try_from_boxed_slice", "arr_try_from_bslice"}) :
@@ -155,8 +158,10 @@ DoCbBody ==
     /\ IF \E e \in SeqRange(op.cur) : e \in loose
        THEN ReleaseElem(CHOOSE e \in SeqRange(op.cur) : e \in loose)
        ELSE /\ owed = <<>>
-            /\ CbRet([k |-> op.k, ret |-> IF op.name \in Folds THEN <<>> ELSE <<NewId>>,
-                      acc |-> op.acc + 1, panic |-> FALSE])
+            /\ IF op.name \in SearchOps
+               THEN CbRet([k |-> op.k, ret |-> <<>>, acc |-> IF op.k = op.arg THEN 1 ELSE 0, panic |-> FALSE])
+               ELSE CbRet([k |-> op.k, ret |-> IF op.name \in Folds THEN <<>> ELSE <<NewId>>,
+                           acc |-> op.acc + 1, panic |-> FALSE])
     /\ UNCHANGED <<hist, nexth>>
 
 OutRecs(outs) == [i \in DOMAIN outs |->
@@ -176,7 +181,16 @@ DoRet ==
                            obs |-> <<[h |-> op.recv[1], items |-> CloneFromItems, len |-> -1, lo |-> -1, hi |-> -1],
                                      [h |-> op.recv[2], items |-> op.srcs[2], len |-> -1, lo |-> -1, hi |-> -1]>>])
           /\ UNCHANGED nexth
-       \/ /\ IsCbOp(op.name) /\ op.name \notin CloneFromOps /\ op.k = op.n
+       \/ /\ op.name \in SearchOps /\ (op.stopped \/ op.k = op.n)
+          /\ RetSearch([outs |-> <<>>, obs |-> <<>>, err |-> FALSE,
+                        vals |-> IF op.name \in SearchByRef THEN op.out ELSE <<>>,
+                        res |-> CASE op.name = "iter_position" -> (IF op.stopped THEN op.k - 1 ELSE -1)
+                                  [] op.name = "iter_rposition" -> (IF op.stopped THEN op.n - op.k ELSE -1)
+                                  [] op.name = "iter_any" -> (IF op.stopped THEN 1 ELSE 0)
+                                  [] op.name = "iter_all" -> (IF op.stopped THEN 0 ELSE 1)
+                                  [] OTHER -> -1])
+          /\ UNCHANGED nexth
+       \/ /\ IsCbOp(op.name) /\ op.name \notin CloneFromOps \cup SearchOps /\ op.k = op.n
           /\ LET items == IF op.name = "iter_clone" THEN [i \in DOMAIN op.srcs[1] |-> op.cmap[op.srcs[1][i]]]
                           ELSE op.out
                  okind == CASE op.name = "iter_clone" -> "iter"
